@@ -161,6 +161,15 @@ func (c *Ctx) Risky(desc string) bool {
 	return true
 }
 
+// Tick is the heartbeat of a risky case that consists of many steps (a search below one root): it
+// restarts the watchdog's timer, so that the limit applies to one step (one engine call that does not
+// return) and not to the size of the search.
+func (c *Ctx) Tick() {
+	if rc := c.cur.Load(); rc != nil {
+		c.cur.Store(&riskyCase{desc: rc.desc, start: time.Now()})
+	}
+}
+
 // Done marks the current risky case as finished.
 func (c *Ctx) Done() { c.cur.Store(nil) }
 
